@@ -199,6 +199,91 @@ def check_C18(run):
                     TRUSTED + ["time.Parse is logged for every string and must agree with the TLA+ reference (disagreement = exit 2)"])
 
 
+def check_C05(run):
+    run.model("MC_Build")
+    out, meta = run.drive("C05")
+    total, rejected, states, _ = V.judge(run.scratch, "Trace_Codec", out)
+    cov = std_cov(run, meta, total, states,
+                  "one event per (schema type, Go kind) pair of a 32 x 57 matrix (14 Avro types with parameters; every Go kind incl. unsigned, complex, arrays of several lengths, maps with non-string keys, "
+                  "pointers, interface, chan, func), destination = field F of struct{Pre [16]byte; F; Post [16]byte; Sib} in the middle of a 3-element array; per built pair 4 (16 thorough) decodes of "
+                  "independently written valid encodings (incl. extreme longs) and damaged ones; keys are schema|kind",
+                  extra=dict(pairs=meta.get("pairs"), pairs_built=meta.get("pairs_built")), exhaustive=True)
+    return V.finish("C05", run.tier, run.seed, "model_checking", cov, rejected, out, run.t0,
+                    TRUSTED + ["canary bytes as the sensor for out-of-field stores (TLA+ cannot observe Go memory)", "the matrix of pairs is enumerated completely; values per pair are sampled"])
+
+
+def check_C14(run):
+    cases, g = V.generate(run.scratch, "MC_Schema", "MC_Schema_thorough" if run.thorough() else "MC_Schema_quick")
+    run.models.append(g)
+    out, meta = run.drive("C14", cases=cases)
+    total, rejected, states, _ = V.judge(run.scratch, "Trace_Schema", out)
+    cov = std_cov(run, meta, total, states,
+                  "TLC proves Parse(v(Serialise(s))) = s on the schema universe (primitives, logical types, namespaces, enum, fixed, unions, nested records/collections, named references) and emits the schemas; "
+                  "each is rendered as text 8 (60 thorough) times with shuffled members, unknown attributes of every JSON kind and three whitespace layouts, parsed by SchemaFromString, marshalled and read back by encoding/json; "
+                  "plus every proper prefix / trailing data / syntax damage of the canonical documents; keys are family|schema kind|variation",
+                  extra=dict(tlc_schemas=meta.get("tlc_schemas")))
+    return V.finish("C14", run.tier, run.seed, "model_checking", cov, rejected, out, run.t0, TRUSTED + ["encoding/json as the independent reader of Schema.Marshal output"])
+
+
+def check_C15(run):
+    run.model("MC_SchemaGen")
+    out, meta = run.drive("C15")
+    total, rejected, states, _ = V.judge(run.scratch, "Trace_Schema", out)
+    cov = std_cov(run, meta, total, states,
+                  "29 compile-time types (every tag combination, unexported, embedded value and pointer, one struct type in several positions, four self-referential shapes, unsupported kinds, named primitives) "
+                  "plus seeded reflect.StructOf types with odd kinds (unsigned, int8, arrays, non-string-keyed maps, interface, chan, func, complex) spliced in at random positions; keys are static|type or gen|odd kind")
+    return V.finish("C15", run.tier, run.seed, "model_checking", cov, rejected, out, run.t0, TRUSTED + ["self-referential types run in a child process (stack overflow is unrecoverable)"])
+
+
+def check_C20(run):
+    run.model("MC_Registry", "MC_Registry_thorough" if run.thorough() else "MC_Registry")
+    out, meta = run.drive("C20")
+    total, rejected, states, _ = V.judge(run.scratch, "Trace_Schema", out)
+    cov = std_cov(run, meta, total, states,
+                  "registration histories (nothing registered; first registration; re-registered codecs; re-registered schema after schemas were generated; seeded further re-registrations) x 6 holder values that place a "
+                  "named-string, a struct and a named-slice custom type as field, behind a pointer, as slice element, map value, omitempty field, nested field, slice of pointers, next to an unregistered named type; keys are step|holder")
+    return V.finish("C20", run.tier, run.seed, "model_checking", cov, rejected, out, run.t0, TRUSTED + ["the logging codecs are harness code"])
+
+
+def check_C10(run):
+    run.model("Bank")
+    out, meta = run.drive("C10")
+    total, rejected, states, _ = V.judge(run.scratch, "Trace_Bank", out)
+    cov = std_cov(run, meta, total, states,
+                  "(A) seeded sequences of 60 (400 thorough) bank operations over up to 4 concurrently open banks and 4 types + strings through the public surface, every live allocation's rank-compressed address range and content hash recorded after every step; "
+                  "(B) multi-block files of every codec read with ReadFile, all records retained, banks closed in a seeded order while reading continues, retained records re-projected at checkpoints; keys are part|run or codec|block size")
+    return V.finish("C10", run.tier, run.seed, "model_checking", cov, rejected, out, run.t0,
+                    TRUSTED + ["addresses and content hashes of bank memory are read by the harness with unsafe (TLA+ cannot observe Go memory)"])
+
+
+def check_C11(run):
+    run.model("Heap")
+    v = V.run_tlc(run.scratch, "Heap", "Heap_defect", workers=4, timeout=600)
+    if "Invariant GCSafe is violated" not in v["out"]:
+        raise V.Infra("vacuity check failed: the Heap model does not reject the untyped-word mechanism")
+    out, meta = run.drive("C11", timeout=7000)
+    total, rejected, states, _ = V.judge(run.scratch, "Trace_Codec", out)
+    cov = std_cov(run, meta, total, states,
+                  "7 target shapes (maps and slices behind pointers, maps of maps / slices / pointers, pointers to registered types, nested records) x 3 codecs x block layouts, decoded in child processes under GODEBUG=clobberfree=1 "
+                  "(thorough: also GOGC=1 + gcstoptheworld=1) with forced collections + size-class churn in the callback, after the read and, through the hook in ResourceBank.Alloc, in the middle of decoding; "
+                  "map encoding while another goroutine forces collections; keys are direction|shape|codec|environment")
+    return V.finish("C11", run.tier, run.seed, "exploration", cov, rejected, out, run.t0,
+                    TRUSTED + ["the Go runtime (collector with clobberfree) is the sensor; TLA+ supplies the mechanism model (Heap) and the expected values"])
+
+
+def check_C12(run):
+    run.model("Concurrency", "Concurrency" if run.thorough() else "Concurrency_quick", timeout=3000)
+    race = run.harness(race=True)
+    out, meta = run.drive("C12", extra_env={"VERIF_RACE_BIN": race}, timeout=7000)
+    total, rejected, states, _ = V.judge(run.scratch, "Trace_Conc", out)
+    cov = std_cov(run, meta, total, states,
+                  "gates: for each ordered pair of sections of the same lock (registry r/w, schema registry r/w, zone cache) one goroutine parked inside, a second sent towards the other section, arrival recorded; "
+                  "stress: 3 (20 thorough) runs of 8-16 goroutines x 40-150 mixed operations (shared-codec encode/decode, codec construction, registration, timestamps with 8 zone offsets, whole-file reads, closing banks obtained elsewhere) "
+                  "under the race detector with section enter/leave events sequenced inside the sections; keys are gate|parked|probe or stress|run")
+    return V.finish("C12", run.tier, run.seed, "model_checking", cov, rejected, out, run.t0,
+                    TRUSTED + ["the Go race detector is the sensor for unsynchronised accesses", "interleavings are explored by gate enforcement at hook granularity and by stress, not exhaustively at instruction level"])
+
+
 CHECKS = {k[6:]: v for k, v in list(globals().items()) if k.startswith("check_C")}
 
 
